@@ -136,6 +136,23 @@ pub fn replay(args: &Args) {
     let vecs = read_ndjson(args.get("in"));
     let mut out = Ndjson::create(args.get("out"));
     for (i, v) in vecs.iter().enumerate() {
+        if v.get("kind").map(|k| k == "parse").unwrap_or(false) {
+            // design-model vector: raw bytes -> Address::from_bytes
+            let bytes = jbytes(&v["bytes"]);
+            let got = match catch(|| Address::from_bytes(&bytes)) {
+                Ok(Ok(a)) => json!({"ok": true, "a": project(&a)}),
+                Ok(Err(e)) => {
+                    let d = format!("{e:?}");
+                    let name = d.split(|c: char| !c.is_alphanumeric()).next().unwrap_or("").to_string();
+                    json!({"ok": false, "why": name})
+                }
+                Err(msg) => json!({"ok": false, "why": "panic", "msg": msg}),
+            };
+            let same = got == v["res"];
+            out.ev(json!({"i": i, "ok": same, "at": "parse", "why": if got["why"] == "panic" { "panic" } else { "mismatch" },
+                          "got": got, "want": v["res"], "bytes": v["bytes"], "calls": 1}));
+            continue;
+        }
         let built = catch(|| build(&v["a"]));
         let a = match built {
             Ok(a) => a,
